@@ -12,8 +12,8 @@ E1_NOTE = ('Sequentially consistent interleavings only (no weak-memory reorderin
 CHECKS = {
  'C06': dict(engine='E2-evloop', category='model_checking', design='DESIGN.md 4, 9/C06',
    technique='explicit exhaustive enumeration of event-loop histories executed on the real tpt_loop (wrapped epoll_wait plays the environment), checked step by step against a model of the registration promise; plus exhaustive timer-unit and validation grids',
-   text='All histories up to depth 4 (quick) / 5 (thorough) of add / enable (both forms) / disable / delete / make-ready / drain / peer-close / timer-expiry / callback-side actions over a pipe, a socket and a timer are run on the real loop with the real epoll and timerfd; after every loop iteration the callback that ran must be registered, enabled and have its condition (one-shot gone, dispatch silent until re-enabled, EOF flag iff peer closed, no lost event). The itimerspec/clock/flags reaching timerfd_settime are compared with integer arithmetic for every unit x boundary value; malformed registrations must be refused before reaching the kernel.',
-   note='Single loop thread, registrations issued on the owning thread or before the loop runs; process events (TP_EV_PROC on a real forked child) are driven by their own history enumeration (add / delete / disable / child exits, interleaved with a read event, two steps deeper than the main alphabet); epoll round-robin fairness assumed for the no-lost-event clause; time is owned (timers expire only when the history says so).'),
+   text='All histories up to depth 4 (quick) / 5 (thorough) of add / enable (both forms) / disable / delete / make-ready / drain / peer-close / timer-expiry / callback-side actions (disable or delete self, enable the next, delete or disable every other registration, drain) over a pipe, a socket and a timer are run on the real loop with the real epoll and timerfd; after every loop iteration the callback that ran must be registered, enabled and have its condition (one-shot gone, dispatch silent until re-enabled, EOF flag iff peer closed, no lost event). The itimerspec/clock/flags reaching timerfd_settime are compared with integer arithmetic for every unit x boundary value; malformed registrations must be refused before reaching the kernel.',
+   note='Single loop thread, registrations issued on the owning thread or before the loop runs; process events (TP_EV_PROC on a real forked child) are driven by their own history enumeration (add / delete / disable / enable again / child exits, interleaved with a read event, two steps deeper than the main alphabet); epoll round-robin fairness assumed for the no-lost-event clause; time is owned (timers expire only when the history says so).'),
  'C10': dict(engine='E1-sched', category='model_checking', design='DESIGN.md 3, 9/C10',
    technique='stateless model checking of the real pthread code: deviation-bounded exhaustive DFS over schedules and write() faults under a cooperative scheduler (link-time --wrap), ASan stack-use-after-return as memory oracle',
    text='Every schedule (<=2 preemptions/faults quick, <=3 thorough on small pools) of every broadcast API x flag x caller x not-running-subset scenario is executed on the real threadpool sources and checked for exactly-once delivery on the right OS thread, true counts, SYNC return-after-last-callback, no access to the dead caller frame, done callback once/on originator/after all, one-by-one order and non-overlap.',
@@ -24,12 +24,12 @@ CHECKS = {
    note=E1_NOTE + ' A send racing a real shutdown is represented by EPIPE/EBADF answers from write(), as the property lists it.'),
  'C11': dict(engine='E1-sched', category='model_checking', design='DESIGN.md 3, 9/C11',
    technique='stateless model checking of the real pthread code: deviation-bounded exhaustive DFS over schedules of life-cycle scripts plus exhaustive single/double resource-failure injection (calloc, epoll_create1, pipe2, epoll_ctl, pthread_create) via link-time wrappers',
-   text='All contract-respecting life-cycle scripts (create / threads_create / attach_first / in-flight message, read event or timer / shutdown from outside, concurrently, from a worker / wait / destroy) are explored for termination, hook balance, no callback after destroy, descriptor / allocation / thread balance (ASan for use-after-free); every k-th resource failure during creation must fail cleanly.',
+   text='All contract-respecting life-cycle scripts (create / threads_create / attach_first / in-flight message, read event or timer, busy callback / shutdown from outside, concurrently, from a worker / wait, also from a stop hook / destroy; attach_first after every thread exists) are explored for termination, hook balance, no callback after destroy, descriptor / allocation / thread balance (ASan for use-after-free); every k-th resource failure during creation must fail cleanly.',
    note=E1_NOTE),
  'C16': dict(engine='E2-evloop', category='model_checking', design='DESIGN.md 4, 9/C16',
    technique='explicit exhaustive enumeration of (task configuration x environment history) executed on the real event loop and the real threadpool_task handlers (wrapped epoll_wait plays arrivals, peer close, timer expiry, re-enable), byte-stream/cursor invariants checked in every callback and at quiescence',
    text='For receive and send tasks over a stream socketpair: all fragmentations of a 6-byte payload, peer close and timeout expiry at every position, every event-flag choice, callback-after-every-read on/off, direct or scheduled first I/O, six buffer windows and six callback policies (continue, stop/destroy at the k-th call, dispatch pause + re-enable). Checked: bytes in the window equal the stream prefix, nothing outside the window is written, transferred counts add up to the cursor movement, cursors stay consistent and inside the buffer, an armed task moves everything that arrived, EOF and ETIMEDOUT are reported once per occurrence, nothing is called back after stop/destroy or while a dispatch task is paused.',
-   note='AF_UNIX sockets only; a second harness forces short writes on the send side (24 KiB window, minimal SO_SNDBUF, the peer drains in every sequence of 1500/4096/9000-byte chunks) and drives the datagram packet receiver (all sequences of <=3-4 datagrams of sizes 1,3,8,9 into 8/12-byte buffers, consume or accumulate policy); notify / accept / connect handlers are not driven; one loop thread; time is owned by the harness.'),
+   note='Stream tasks over AF_UNIX sockets; a second harness forces short writes on the send side (24 KiB window, minimal SO_SNDBUF, the peer drains in every sequence of 1500/4096/9000-byte chunks) and drives the datagram packet receiver (all sequences of <=3-4 datagrams and two-datagram bursts into 8/12-byte buffers, consume or accumulate policy); a third harness drives the accept, connect, connect_ex and notify variants over loop-back TCP (listening / refusing / never-answering addresses, every address list of length 1..3, retry and delay options, destroy and clock-jump points, timers fired also after stop/destroy); histories may stop and start a task again; bind_accept*_create are not driven; one loop thread; time and the clock are owned by the harness.'),
  'C14': dict(engine='E4-enum', category='exploration', design='DESIGN.md 6, 9/C14',
    technique='small-scope exhaustive input enumeration of the real encoders/decoders against independent references (bounded exhaustive exploration)',
    text='All values of 8/16-bit integers and the boundary set of wider types (decimal formatters/parsers and the 20 hex parsers), all byte strings up to length 2-3 plus structural alphabets through Base64 (incl. a junk byte at every position for the tolerant decoder), hex, XML entities, URL unescaping under 5 percent-encoders, every CRC table entry and all 8 CRC variants over lengths 0..129 x alignments x split points: each compared with an independent reference (snprintf, bit-accumulator Base64, bitwise Rocksoft-model CRC self-checked against catalogue values, zlib) and round-tripped; reported lengths must equal the bytes produced.',
@@ -50,7 +50,7 @@ CHECKS = {
  'C08': dict(engine='E3-seqbfs', category='model_checking', design='DESIGN.md 5, 7, 9/C08, harness/C08/NOTES.md',
    technique='partition-confluence state exploration of the real streaming cipher (states = stream position per configuration, transitions = crypt of the next c bytes under every alignment/in-place/keystream-only variant, each checked against an independent reference key stream and for context confluence) across a compiler/optimisation build matrix; exhaustive 2^32 sweep of the GOST substitution step',
    text='ChaCha 8/12/20 x 128/256-bit keys x counters around the 2^32 and 2^64 wraps: every (position, chunk, alignment variant) transition up to 4 blocks+1 must emit the reference key stream and leave the same live context as a single call, so every split gives the same stream; one-shot chacha/xchacha/hchacha and the block API likewise; gcc/clang x -O0..-O3 x with/without -fno-strict-aliasing. GOST 28147-89: substitution+rotate over all 2^32 inputs x 6 S-box sets (thorough) for expanded and small tables against a 6-line reference; block encrypt/decrypt/MAC on structural alphabets, all alignments, decrypt inverts encrypt, published vectors.',
-   note='S-box values and ChaCha constants are anchored by the published vectors the header carries and by openssl enc -chacha20 (checked at run time); key/nonce/plaintext values outside the alphabets are not covered; the 32-bit ChaCha path cannot be built in this image.'), 'C17': dict(engine='E3-seqbfs', category='model_checking', design='DESIGN.md 5, 9/C17, harness/C17/NOTES.md',
+   note='GOST S-box values of all six sets are anchored by libgcrypt (own tables, selected by OID: encrypt, decrypt, MAC agree), ChaCha by the published vectors the header carries and by openssl enc -chacha20 (checked at run time); key/nonce/plaintext values outside the alphabets are not covered; the 32-bit ChaCha path cannot be built in this image.'), 'C17': dict(engine='E3-seqbfs', category='model_checking', design='DESIGN.md 5, 9/C17, harness/C17/NOTES.md',
    technique='explicit-state breadth-first search over operation histories of the real INI store (transition = one real ini_buf_parse / ini_val_set* call, state = canonical line list), a list-of-lists reference model and all observers evaluated in every state; one search runs to a fixpoint',
    text='Three searches (set-only over a small alphabet until no new state appears; parse+set to depth 5-6; a wider mixed alphabet to depth 3-4), each under ASan and under a deterministic in-place-realloc allocator: in every state case-sensitive and case-insensitive lookups for every spelling, section and value enumeration order, calc_size == bytes generated, generation into every smaller capacity fails without writing past it, parse(gen(store)) equivalent to the store.',
    note='Duplicate (section,name) pairs are not generated (the store keeps duplicates and answers with the first, which has no ordered-map meaning); empty names are outside the API precondition; see harness/C17/NOTES.md.'),
@@ -65,7 +65,7 @@ CHECKS = {
    text='Base64, hex, all num2str/str2num/strh2num functions, UTF-8, ASN.1, bencode (incl. deep nesting), XML extraction and entity coding, INI parse/generate/set, buf2args, line iteration, the mem_* search/replace helpers and CRC are called on every input of their scope with every capacity: no read outside the input, no write outside the capacity, the reported size is sufficient, an exactly sized buffer is accepted, the call returns.',
    note='Inputs outside the per-target alphabets/lengths are not covered; returned extents that the function only reports (asn_parse data_size) are not judged; see harness/C12/NOTES.md for the table and the 11 fixes it led to.'), 'C01': dict(engine='E4-enum', category='exploration', design='DESIGN.md 6, 7, 9/C01, harness/C01/NOTES.md',
    technique='small-scope exhaustive enumeration of operand values (8-bit digits: all 1x2-digit pairs, all values < 2^16 for unary ops, every modulus and residue; thorough: all 2^32 pairs) and a structural digit alphabet at every width, against independent reference integers, across the digit-width x multiply/divide-routine x compiler x optimisation matrix, with stale-storage and aliasing variants of every call',
-   text='Every listed bignum operation is called on every operand tuple of the scope with capacities from minimal to 4 digits, once with 0xA5 and once with 0x00 in all dead storage, in non-aliased and every permitted aliased form, in 9 (quick) / 54+ (thorough) builds: rc == 0 with a value, carry, borrow or remainder different from the reference is a violation, as are crashes, wild memory sizes and buffer overruns; NAF/JSF outputs are re-evaluated and checked for their defining form.',
+   text='Every listed bignum operation is called on every operand tuple of the scope with capacities from minimal to 4 digits (and, in the full-capacity configurations, with BN_BIT_LEN = 2 digits so that operands and moduli are as wide as a bn_t can be), once with 0xA5 and once with 0x00 in all dead storage, in non-aliased and every permitted aliased form, in 18 (quick) / 99+ (thorough) builds: rc == 0 with a value, carry, borrow or remainder different from the reference is a violation, as are crashes, wild memory sizes and buffer overruns; NAF/JSF outputs are re-evaluated and checked for their defining form.',
    note='Operand values outside the alphabets at >= 16-bit digits are not covered; a non-zero rc is always accepted; Barrett, bn_egcd, bn_mod_inv3, bn_sqrt4 are outside the property; see harness/C01/NOTES.md.'),
  'C03': dict(engine='E4-enum', category='exploration', design='DESIGN.md 6, 7, 9/C03, harness/C03/NOTES.md',
    technique='exhaustive enumeration on tiny prime-order curves: every (private key, hash integer 0..2n, nonce 0..2n) through the signer, the full verifier truth table over all (Q, e, r, s) against an independent SEC 1 / GOST R 34.10 reference with brute-force point arithmetic; byte entry points with every hash length and every single-bit / boundary mutation under ASan; several build configurations',
@@ -76,12 +76,12 @@ CHECKS = {
    text='export then import is the identity for every point and form; import with validation accepts exactly the encodings of the neutral element or of on-curve points annihilated by n with coordinates < p and a known prefix, compressed input recovers the root with the requested parity; key generation, public-key recovery and Diffie-Hellman equal the reference and DH is symmetric; every byte entry point stays inside the sizes passed.',
    note='Hybrid prefixes 06/07 with a wrong parity bit are accepted by the library: observed, not enforced (the statement does not settle it); cofactor DH on points outside <G> observed only; EC_DISABLE_PUB_KEY_CHK builds are judged on round trips and memory only.'), 'C04': dict(engine='E3-seqbfs', category='model_checking', design='DESIGN.md 5, 7, 9/C04, harness/C04/NOTES.md',
    technique='partition-confluence state exploration of the real streaming hash contexts (states = absorbed length, transitions = update with the next c bytes from a buffer at alignment a; every transition must reach the single-update context, so every split is decided by induction), digests from every state against hashlib / an independent Streebog reference, across a build matrix with every block-transform implementation forced',
-   text='MD5, SHA-1, SHA-224/256/384/512, Streebog-256/512 x every transform the build contains (generic, SSE, SHA-NI, AVX) x 4 content patterns: every (absorbed n, chunk c, alignment a) transition up to 2-4 blocks+1 must give the canonical context of a single update, final from every n and the one-shot / hex entry points must equal the reference digest, the context must be wiped after final; length-field carries are reached from contexts with preset byte counters near 2^29..2^125; quick 8 builds, thorough 52 (gcc/clang x -O0/-O2/-O3 x SIMD levels x small tables).',
+   text='MD5, SHA-1, SHA-224/256/384/512, Streebog-256/512 x every transform the build contains (generic, SSE, SHA-NI, AVX) x 4 content patterns: every (absorbed n, chunk c, alignment a) transition up to 2-4 blocks+1 must give the canonical context of a single update, final from every n and the one-shot / hex entry points must equal the reference digest, the context must be wiped after final, and (dead-stack scan, unsanitised optimised builds, every entry point run on a stack the harness owns) no whole message tail may remain in the dead stack of the one-shot entry points; length-field carries are reached from contexts with preset byte counters near 2^29..2^125; quick 8 builds, thorough 52 (gcc/clang x -O0/-O2/-O3 x SIMD levels x small tables).',
    note='Message contents beyond the four patterns are not covered; Streebog table VALUES are parsed from the header and anchored only by the published vectors (expanded vs small tables are cross-checked exhaustively); two gcc SSE2/SSSE3-only builds do not compile (reported as skipped).'),
  'C07': dict(engine='E3-seqbfs', category='model_checking', design='DESIGN.md 5, 7, 9/C07, harness/C07/NOTES.md',
    technique='exhaustive enumeration of key lengths 0..3 blocks+1 for all eight HMAC variants plus the partition-confluence state exploration of hmac_*_update, against Python hmac (RFC 2104) and the RFC 2104 construction over an independent Streebog reference, across the C04 build matrix',
-   text='Every key length 0..3B+1 x message lengths {0,1,B-1,B,B+1,2B}: one-shot, hex and incremental (one update, byte-wise, 0|B-1|0|rest) MACs equal the reference; update confluence over every (n, c, alignment) for representative key lengths; k_opad and the whole context are all-zero after final.',
-   note='Key and message contents beyond the fixed patterns are not covered; k_ipad is a stack local and not observable; RFC 7836 restrictions on Streebog key lengths are not applied (the property asks for RFC 2104 at every length).'),
+   text='Every key length 0..3B+1 x message lengths {0,1,B-1,B,B+1,2B}: one-shot, hex and incremental (one update, byte-wise, 0|B-1|0|rest) MACs equal the reference; update confluence over every (n, c, alignment) for representative key lengths; k_opad and the whole context are all-zero after final; dead-stack scan: after every one-shot / init+update+final call on a stack the harness owns, neither keyed pad may remain there (unsanitised builds at -O1..-O3/-Os).',
+   note='Key and message contents beyond the fixed patterns are not covered; k_ipad is a stack local: judged by the dead-stack scan only (runs of >= 40 bytes, so register spills of the block transform do not count); RFC 7836 restrictions on Streebog key lengths are not applied (the property asks for RFC 2104 at every length).'),
 }
 
 REASON_WIP = 'check not finished yet in this session (harness under construction; see DESIGN.md section 13)'
